@@ -118,6 +118,16 @@ func ws(r *rand.Rand, o Opts, dst []byte) []byte {
 	if !o.WS {
 		return dst
 	}
+	if r.Intn(150) == 0 { // a run longer than one or two SIMD blocks
+		n := 60 + r.Intn(150)
+		for i := 0; i < n; i++ {
+			c := " \t\r\n"[r.Intn(4)]
+			if c == '\n' && (o.NoLF || i%9 != 0) {
+				c = ' '
+			}
+			dst = append(dst, c)
+		}
+	}
 	for r.Intn(4) == 0 {
 		c := " \t\r\n"[r.Intn(4)]
 		if c == '\n' && o.NoLF {
